@@ -166,6 +166,23 @@ EXTRA4 = {
     "C19": "a branch of the selection decided by a measured quantity is a wrong-table result (one class and layout per result), element-wise numpy functions of measured quantities are measured quantities",
     "C20": "both settings of merge(inplace) go through the class' own kernel on every path (SIBLING/EFFECT of merge composed), Emulsion.copy's filters as truth tables (COPYALL)",
 }
+EXTRA5 = {
+    "C04": "the candidates of refine_droplets are consumed once (ITER-ONCE composed), the image values of the fit region are not replaced (OBJECTIVE:image-values)",
+    "C06": "the loop over the frames works on the items it is handed (EFFECT:frame-as-given)",
+    "C07": "named options of from_storage reach from_emulsion_time_course (FORWARD:forwards)",
+    "C08": "writers consume their one-shot frame iterators once (ITER-ONCE over local iterators)",
+    "C09": "the time course keeps its own list of times (FRESH composed), histogram bins are not dropped by a mask (TOTAL:bins-kept)",
+    "C10": "no hand-written memo on the mutable emulsion (STATELESS:no-cache incl. results stored on self), exact Euclidean k-d tree query (NEIGHBOR:metric)",
+    "C11": "unpickled droplets stay writeable (PICKLE composed), a clamped operand in a merge store is not the conserved quantity (TERM)",
+    "C13": "the scalar-argument wrapper hands accepted keywords to the method on every path (WRAP), mode iterators are consumed once (ITER-ONCE), the angles are used as given (ORIGIN:angles-as-given)",
+    "C14": "the located emulsion is recorded as returned (PIPE:result-as-returned), finalize writes with the file name only (FORWARD:to_file)",
+    "C15": "module-level containers reached through local aliases and modified by augmented assignment (STATELESS composed)",
+    "C16": "the Fourier transform is not modified in place before the modulus is taken (RAWDATA:modulus)",
+    "C17": "threshold_otsu does not write through its argument or a view of it (EFFECT:data-readonly), mask conjunctions (GUARDSHAPE:mask composed)",
+    "C18": "the binary image is the comparison alone (GUARDSHAPE:mask on conjunctions, also when built up over several statements), threshold_otsu does not write through its argument (EFFECT:data-readonly)",
+    "C19": "boolean options used by truth value (FLAGTEST), dictionary literals interpreted, every return of refine_droplet hands out the promoted object (CLASSSEL:returns-promoted)",
+    "C20": "the periodic metric reaches the distance matrix of remove_overlapping (METRIC composed), extend / the constructor consume their iterable once (ITER-ONCE composed)",
+}
 ALL_SUFFIX = "; all rules run on the pre-normalised program (dropstat/prenorm.py: spelling-level normal forms; dropstat/localroles.py: canonical local names)"
 EXTRA2 = {
     'C01': "surface-distance and symmetry of the duplicate filter's distance matrix (SURFACE, SYMM)", 'C04': 'levels defined for an empty fit region (LEVELS:empty-region), feasibility for both signs of the intensity range (FEASIBLE, min/max resolved per case)',
@@ -199,7 +216,7 @@ def main():
             "engine": "dropstat",
             "level_claimed": {"category": "other", "text": d["text"], "design_ref": d["ref"]},
             "level_note": d["note"],
-            "technique": d["technique"] + ("; " + EXTRA[pid] if pid in EXTRA else "") + ("; " + EXTRA2[pid] if pid in EXTRA2 else "") + ("; " + EXTRA3[pid] if pid in EXTRA3 else "") + ("; " + EXTRA4[pid] if pid in EXTRA4 else "") + ALL_SUFFIX,
+            "technique": d["technique"] + ("; " + EXTRA[pid] if pid in EXTRA else "") + ("; " + EXTRA2[pid] if pid in EXTRA2 else "") + ("; " + EXTRA3[pid] if pid in EXTRA3 else "") + ("; " + EXTRA4[pid] if pid in EXTRA4 else "") + ("; " + EXTRA5[pid] if pid in EXTRA5 else "") + ALL_SUFFIX,
         })
     na = list(NOT_APPLICABLE)
     claimed = {c["property_id"] for c in checks}
